@@ -1,1 +1,53 @@
-(* property theorems: see below; filled in when the proofs are complete *)
+(* C01 - TFTP octet transfers deliver the handler's bytes exactly, even under packet loss.
+   Property theorems only. *)
+From Coq Require Import String.
+From Coq Require Import List NArith ZArith Bool Arith Lia.
+From VF Require Import Tftp.Readers Tftp.ReadersProofs Tftp.Codec Tftp.Transfer Tftp.Run Tftp.Monitor
+  Tftp.MonitorProofs Tftp.Entries C01.Entry.
+Import ListNotations.
+
+(* block framing of any byte string: count, sizes, concatenation *)
+Theorem C01_blocks_spec : forall bs content, (1 <= bs)%nat ->
+  length (split_blocks bs content) = S (length content / bs) /\
+  framed bs (split_blocks bs content) /\
+  concat (split_blocks bs content) = content.
+Proof.
+  intros bs content H. split; [apply split_blocks_count; auto|].
+  split; [apply split_blocks_framed; auto|apply split_blocks_concat].
+Qed.
+Print Assumptions C01_blocks_spec.
+
+(* however the handler's stream splits its reads, the reader yields exactly that framing *)
+Theorem C01_reader_chunking_independent : forall bs content chunking, (1 <= bs)%nat ->
+  octet_blocks bs content chunking = split_blocks bs content.
+Proof. exact octet_blocks_spec. Qed.
+Print Assumptions C01_reader_chunking_independent.
+
+(* for EVERY script of incoming datagrams (acks, losses = silence, duplicates, stale and future
+   acks, errors, garbage, foreign senders, any timing) the trace of the transfer is accepted by
+   the monitor, whose expected packet list is DATA 1,2,3,... (wrap rule) over
+   split_blocks bs content, preceded by the negotiated OACK *)
+Theorem C01_monitor_accepts : forall c, valid c -> monitor c (run_transfer_case c) = [].
+Proof. exact monitor_accepts. Qed.
+Print Assumptions C01_monitor_accepts.
+
+Theorem C01_holds : forall c, valid c -> holds c (run_transfer_case c) = [].
+Proof. intros c H. unfold holds. rewrite monitor_accepts by exact H. reflexivity. Qed.
+Print Assumptions C01_holds.
+
+(* non-vacuity: a three-block transfer with a lost packet and a stale acknowledgement *)
+Definition ex_case : tcase :=
+  {| t_content := [1; 2; 3; 4; 5; 6; 7; 8; 9; 10; 11; 12; 13; 14; 15; 16; 17]%N; t_chunks := [3; 1; 5]%nat;
+     t_netascii := false; t_options := [(lit "blksize", lit "8")];
+     t_limits := {| max_bs := 65464; max_tmo := 30; default_tmo := 2 |}; t_retries := 1; t_wrap := Some 0%N;
+     t_kind := KNoFileno;
+     t_events := [Recv 5 0 [0; 4; 0; 0]; Recv 2100 0 [0; 4; 0; 1]; Recv 2101 0 [0; 4; 0; 1];
+                  Recv 2102 0 [0; 4; 0; 2]; Recv 2103 0 [0; 4; 0; 3]]%N;
+     t_v := current; t_nv := ncurrent; t_na_always_skip := false |}.
+Example C01_nonvacuous :
+  valid ex_case /\
+  proj_client_packets (run_transfer_case ex_case) =
+  Sx.L [Sx.L [Sx.I 6]; Sx.L [Sx.I 3; Sx.I 1; Sx.B [1; 2; 3; 4; 5; 6; 7; 8]%N];
+        Sx.L [Sx.I 3; Sx.I 1; Sx.B [1; 2; 3; 4; 5; 6; 7; 8]%N];
+        Sx.L [Sx.I 3; Sx.I 2; Sx.B [9; 10; 11; 12; 13; 14; 15; 16]%N]; Sx.L [Sx.I 3; Sx.I 3; Sx.B [17]%N]].
+Proof. split; [repeat split; cbn; lia|vm_compute; reflexivity]. Qed.
